@@ -1182,6 +1182,9 @@ class Data(BaseCartesianData):
             for cid in self._world_component_ids[:]:
                 self.remove_component(cid)
                 self._world_component_ids.remove(cid)
+            # the links between pixel and world coordinates refer to the
+            # world components that have just been removed
+            self._coordinate_links = []
             if self.coords:
                 for i in range(ndim):
                     comp = CoordinateComponent(self, i, world=True)
